@@ -235,6 +235,15 @@ def make_cases(tier, rnd):
     thorough = tier == "thorough"
     cases = []
     hosts = ["fresh", "host", "repeat"]
+    # operand gates whose labels are string literals of the generator sources (label independence)
+    for n in (1, 2, 3, 5, 8):
+        for rep_ in range(3 if thorough else 2):
+            ws = [rnd.randint(0, 2) for _ in range(n)]
+            cases.append(dict(fn="add_sum_n_bits", widths=[n], basis=rnd.choice(BASES), big_endian=bool(n % 2), host="literal-labels", rep=rep_))
+            cases.append(dict(fn="add_sum_n_weighted_bits", widths=[n], weights=ws, basis=rnd.choice(BASES), host="literal-labels", rep=rep_))
+            cases.append(dict(fn="add_sum_n_weighted_bits_naive", widths=[n], weights=ws, basis=rnd.choice(BASES), host="literal-labels", rep=rep_))
+            cases.append(dict(fn="add_sum_two_numbers_with_shift", widths=[n, max(1, n - 1)], shift=rep_, host="literal-labels", rep=rep_))
+            cases.append(dict(fn="add_sum_pow2_m1", widths=[n], basis="enum:XAIG", host="literal-labels", rep=rep_))
     # bit counts
     ns = list(range(1, 13)) + [16, 24, 31, 32] if not thorough else list(range(1, 33))
     for n in ns:
